@@ -26,19 +26,21 @@ pub fn build(
 
     let mut refs = Vec::with_capacity(output_types.len());
 
-    let mut offset = -1;
+    let mut offset: i16 = -1;
     for output_type in output_types.rev() {
         let size = builder
             .program_info
             .type_sizes
             .get(output_type)
             .ok_or(InvocationError::UnknownVariableData)?;
+        // All the cells of the return values must be addressable by an `i16` offset from `ap`.
+        let next_offset = offset.checked_sub(*size).ok_or(InvocationError::IntegerOverflow)?;
         refs.push(ReferenceExpression {
-            cells: ((offset - size + 1)..(offset + 1))
+            cells: ((next_offset + 1)..(offset + 1))
                 .map(|i| CellExpression::Deref(cell_ref!([ap + i])))
                 .collect(),
         });
-        offset -= size;
+        offset = next_offset;
     }
 
     Ok(builder.build(
